@@ -99,7 +99,7 @@ def run(F, tier, res):
                             'a push onto %s is not preceded by a len() > line_buffer_size check that paints and clears the buffers: '
                             'the number of held-back lines is unbounded (a huge added/removed file is rendered only at its end)' % fld,
                             where=F.span_of_call(blocks[pb]['t'][1]))
-    res.rule('C11.LAG', n, 2, 'pushes onto minus_lines/plus_lines in the hunk-line handler, each guarded by the line_buffer_size check', discharged=ok)
+    res.rule('C11.LAG', n, 1, 'pushes onto minus_lines/plus_lines in the hunk-line handler, each guarded by the line_buffer_size check', discharged=ok)
     # INPUT
     ra = [p for p in F.fn_bodies if p == 'run_app' or p.endswith('::run_app')]
     if not ra:
@@ -117,7 +117,7 @@ def run(F, tier, res):
                     res.violate('INPUT', 'fn=%s;inst=%s' % (p, full), 'the renderer is fed from a reader that is not a line-streaming view of stdin / the child\'s stdout', where=F.span_of_call(c))
             if r.endswith(('::read_to_end', '::read_to_string')) or r == 'std::fs::read':
                 res.violate('INPUT', 'fn=%s;callee=%s' % (p, r), 'run_app reads a whole stream into memory', where=F.span_of_call(c))
-    res.rule('C11.INPUT', n_in, 2, 'instantiations of the renderer in run_app (StdinLock / BufReader<ChildStdout>)', discharged=ok_in)
+    res.rule('C11.INPUT', n_in, 1, 'instantiations of the renderer in run_app (StdinLock / BufReader<ChildStdout>)', discharged=ok_in)
     # SINK
     mains = [p for p in F.fn_bodies if p == 'main']
     scanned = 0
